@@ -320,9 +320,11 @@ class _FailingIterator:
 
 # ----------------------------------------------------------------------------- the real code
 
-def build_pipeline(case, sinks):
+def build_pipeline(case, sinks, data_source=None):
   from ml_metrics import chainable
   p = chainable.Pipeline.new(num_threads=case.get('threads', 0))
+  if data_source is not None:
+    p = p.data_source(data_source)          # the source belongs to the pipeline: make(shard=..) / iterate() without argument
   for sp in case['specs']:
     op = sp['op']
     if op == 'select':
@@ -384,6 +386,63 @@ def make_source(src, items):
   raise ValueError(kind)
 
 
+def shard_bounds(length, k, n):
+  """shard k of n of a sequence of `length` records: the k-th of n contiguous blocks whose sizes differ by at most one,
+  the longer ones first (the rule of the English text of property C09; computed here, not asked from the code)"""
+  q, r = divmod(length, n)
+  lo = k * q + min(k, r)
+  return lo, lo + q + (1 if k < r else 0)
+
+
+def effective_case(case):
+  """The plain case (no route) that says which records the pipeline iterator of a ROUTED case has to read: a route
+  (`src.route`: how the data source reaches the runner) never changes the outcome of reading a record nor whether the
+  source skips — only which contiguous part of the sequence is read."""
+  route = case['src'].get('route')
+  if not route:
+    return case
+  c = copy.deepcopy(case)
+  src = c['src']
+  del src['route']
+  via, n_items = route['via'], len(src['items'])
+  lo, hi = 0, n_items
+  if via in ('shard', 'make_shard'):
+    lo, hi = shard_bounds(n_items, route['k'], route['n'])
+  elif via == 'src_from_state':
+    lo = route['j']           # the source iterator whose state was captured had delivered j records (none failing among them)
+  src['items'] = src['items'][lo:hi]
+  src['fail'] = [[i - lo, kd] for i, kd in src.get('fail', []) if lo <= i < hi]
+  return c
+
+
+def routed_iterator(p, source, via, route, ignore, out):
+  """The pipeline iterator, the data source reaching the runner by the route `via`:
+  direct          p.make().iterate(source)
+  shard           p.make().iterate(source.shard(k, n))
+  make_shard      p.data_source(source) ... .make(shard=ShardConfig(k, n)).iterate()      (what a distributed worker does)
+  src_from_state  a source iterator restored from the state of another one that had delivered j records
+  restored        a pipeline iterator restored (from_state) from the state of another one that had delivered j outputs
+                  (those j outputs are the head of `out`)"""
+  from ml_metrics._src.chainables import io
+  if via == 'direct':
+    return p.make().iterate(source, ignore_error=ignore)
+  if via == 'shard':
+    return p.make().iterate(source.shard(route['k'], route['n']), ignore_error=ignore)
+  if via == 'make_shard':
+    return p.make(shard=io.ShardConfig(route['k'], route['n'])).iterate(ignore_error=ignore)
+  if via == 'src_from_state':
+    it0 = source.iterate()
+    for _ in range(route['j']):
+      next(it0)
+    return p.make().iterate(source.iterate().from_state(it0.state), ignore_error=ignore)
+  if via == 'restored':
+    it0 = p.make().iterate(ignore_error=ignore)
+    for _ in range(route['j']):
+      out.append(enc(next(it0)))
+    return p.make().iterate(ignore_error=ignore).from_state(it0.state)
+  raise ValueError(via)
+
+
 def _disown_pool_threads():
   """How many of the runner's helper threads are still alive after the iteration ended.  A thread that is parked
   for ever (e.g. a producer on a full queue) would also block the exit of this harness process: it is taken off
@@ -435,25 +494,35 @@ def _run_case(case):
   from absl import logging as alog
   alog.set_verbosity(alog.FATAL)        # the runner logs every exception it re-raises
   sinks = []
+  route = case['src'].get('route') or {}
+  via = route.get('via', 'direct')
+  owned = via in ('make_shard', 'restored')     # the data source is given to the pipeline (.data_source(..)), not to iterate()
+  items = source = None
+  if owned:
+    items = [dec(x) for x in case['src']['items']]
+    source = make_source(case['src'], items)
   try:
-    p = build_pipeline(case, sinks)
+    p = build_pipeline(case, sinks, data_source=source)
   except Exception as e:  # pylint: disable=broad-except
     return dict(build=err_kind(e))
   if any(sp['op'] == 'aggregate' and sp['has_fn'] for sp in case['specs']):
     return dict(build=None, agg=True)      # what an aggregate does at run time is property C02
-  items = [dec(x) for x in case['src']['items']]
-  if case['src'].get('twice'):
-    items = items + items               # the same record objects once more
+  if not owned:
+    items = [dec(x) for x in case['src']['items']]
+    if case['src'].get('twice'):
+      items = items + items               # the same record objects once more
   before = copy.deepcopy(items)
   ids = _snapshot(items)
   caller_ids = {i for _, i in ids}
-  source = make_source(case['src'], items)
+  if not owned:
+    source = make_source(case['src'], items)
   out, err, cause, msg = [], None, None, None
   alias = None
   written = written_prefixes(case['specs'])
-  shared = [] if heap_plan(case) is not None else None
+  shared = [] if heap_plan(case) is not None and via == 'direct' else None
+  ignore = bool(case.get('ignore'))
   try:
-    it = p.make().iterate(source, ignore_error=bool(case.get('ignore')))
+    it = routed_iterator(p, source, via, route, ignore, out)
   except Exception as e:  # pylint: disable=broad-except
     return dict(build=None, make_error=err_kind(e))
   try:
@@ -469,6 +538,11 @@ def _run_case(case):
     if e.__cause__ is not None and str(e).startswith('Failed to call'):
       cause = err_kind(e.__cause__)
     del e
+  real_sinks = [s for s in sinks if isinstance(s, RecSink)]
+  logs = [list(s.log) for s in real_sinks]
+  post = None
+  if err is not None:
+    post = observe_after_error(it, real_sinks, case.get('post_next', POST_NEXT))
   del it
   gc.collect()
   mutated = None
@@ -476,7 +550,6 @@ def _run_case(case):
     mutated = 'caller data changed'
   elif _snapshot(items) != ids:
     mutated = 'caller containers replaced'
-  real_sinks = [s for s in sinks if isinstance(s, RecSink)]
   for k, s in enumerate(real_sinks):
     if mutated is None and s.held_changed() is not None:
       mutated = (f'what sink {k} was given at its write {s.held_changed()} reads differently after the run '
@@ -486,8 +559,37 @@ def _run_case(case):
                f'record (path {list(alias)}): the assigned value is visible through the caller\'s data')
   threads_alive = _disown_pool_threads() if case.get('threads') else 0
   return dict(build=None, out=out, err=err, cause=cause, msg=msg, threads_alive=threads_alive,
-              logs=[s.log for s in real_sinks], closed=[s.closed for s in real_sinks],
-              write_after_close=sum(s.write_after_close for s in real_sinks), mutated=mutated, shared=shared)
+              logs=logs, closed=[s.closed for s in real_sinks],
+              write_after_close=sum(s.write_after_close for s in real_sinks), mutated=mutated, shared=shared, post=post)
+
+
+# how often next() is called again on the SAME pipeline iterator after an error reached the caller
+POST_NEXT = 2
+
+
+def observe_after_error(it, real_sinks, k):
+  """Observers AFTER the first error (C12: "the first error reaches the caller ..., iteration stops, sinks are
+  closed"): the error has been handled and released (nothing refers to the exception any more), the pipeline iterator is
+  still alive and referenced.  Read every sink's `closed`, then call next() `k` more times on the same iterator and
+  record what each call did, what was delivered and what the sinks were given by those calls."""
+  gc.collect()
+  closed_at_error = [s.closed for s in real_sinks]
+  n_at_error = [len(s.log) for s in real_sinks]
+  calls, delivered = [], []
+  for _ in range(k):
+    try:
+      x = next(it)
+      calls.append('value')
+      delivered.append(enc(x))
+    except StopIteration:
+      calls.append('stop')
+    except Exception as e:  # pylint: disable=broad-except
+      calls.append('raise:' + err_kind(e))
+      del e
+  gc.collect()
+  return dict(closed_at_error=closed_at_error, calls=calls, delivered=delivered,
+              written=[s.log[n:] for s, n in zip(real_sinks, n_at_error)],
+              closed_after=[s.closed for s in real_sinks])
 
 
 def container_paths(obj, path=()):
@@ -891,7 +993,7 @@ def reference(case):
   `exact`: outputs before an error are exactly `out` (unbatched chains); otherwise the real output must be a prefix of
   the failure-free result."""
   try:
-    return _reference(case)
+    return _reference(effective_case(case))
   except Undefined:
     return dict(out=None, err=('undefined',), logs=None, exact=False)
 
